@@ -261,16 +261,18 @@ def ztApply (raw : List Nat) (first : Int) (zt : ZT) (enable : Bool) (i : Int) :
   | some _, some _ => some (i + zt (first + i))
   | _, _ => none
 
-/-- monotone run length from `i` (the inner `for` of `edgeMultiFindNextTriggerInd`) -/
-def monoRun (raw : List Nat) (rising : Bool) (i : Int) (maxN : Int) (j : Int) (fuel : Nat) : Option Int :=
-  match fuel with
-  | 0 => none
-  | fuel + 1 =>
-    match rd raw (i + j), rd raw (i + j - 1) with
-    | some a, some b =>
-      let isMono := (rising && a > b) || (!rising && a < b)
-      if !isMono || j ≥ maxN then some j else monoRun raw rising i maxN (j + 1) fuel
-    | _, _ => none
+/-- monotone run length from `i` (the inner `for` of `edgeMultiFindNextTriggerInd`): counts up
+from `j` while the samples keep rising (falling) and `j < maxN`. -/
+def monoRun (raw : List Nat) (rising : Bool) (i : Int) (maxN : Int) (j : Int) : Option Int :=
+  match rd raw (i + j), rd raw (i + j - 1) with
+  | some a, some b =>
+    let isMono := (rising && a > b) || (!rising && a < b)
+    if !isMono || j ≥ maxN then some j else monoRun raw rising i maxN (j + 1)
+  | _, _ => none
+termination_by (maxN - j).toNat
+decreasing_by
+  simp only [Bool.or_eq_true, Bool.not_eq_true', decide_eq_true_eq, not_or] at *
+  omega
 
 structure Found where
   trig : Int
@@ -287,7 +289,7 @@ def findNext (raw : List Nat) (first : Int) (zt : ZT) (iFirst iLast thr nmono ma
       let rising := thr ≥ 1
       let diff : Int := (a : Int) - b
       if (rising && diff ≥ thr) || (!rising && diff ≤ thr) then
-        match monoRun raw rising i maxN 1 (raw.length + 2) with
+        match monoRun raw rising i maxN 1 with
         | none => none
         | some fm =>
           if fm ≥ nmono then
